@@ -56,3 +56,118 @@ Example C18_nonvacuous :
   select nv_q1 nv_db = Err EIncompatTypeCompare /\
   select nv_q2 nv_db = Ok ([("x", "k"); ("", "count(b)")], [[VInt 2; VInt 1]; [VInt 1; VInt 1]; [VNull; VInt 0]]).
 Proof. vm_compute. repeat split; reflexivity. Qed.
+
+(* ====================================================================================================
+   C18, DML / DDL / SESSION PART (engine/session.go ExecQuery, engine/{insert,update,delete,create}.go,
+   storage/relation.go). Proofs: Proofs/SessionStore.v, Proofs/SessionProofs.v.
+
+   sess_stmt s st : Model/Session.v, Session.ExecQuery on ONE statement; SOPanic is the outcome of every
+                    Go panic of that path. The model's Panic sources are exactly: a catalog lookup on a
+                    malformed catalog row (Store.pt_lookup / schema_rows: NULL where a value is asserted,
+                    unknown type code), Expr.eval_primary indexing a row shorter than its field list, and
+                    the nil relation service of a selected-but-missing database (findings F12).
+   reachable s    : s is the session state after ANY event list (CREATE DATABASE / USE / SHOW DATABASES /
+                    DDL / DML, timer ticks, clean and unclean restarts) satisfying C17's hypotheses
+                    (Proofs/SessionProofs.v sess_hyps; see Properties/C17.v). In such a state every
+                    database's cache represents a specification database (`Rep`: catalog well-formed,
+                    rows decode with the right width) and the selected name, if any, exists.
+   stmt_bounded   : boolean hypothesis on the statement st ITSELF, evaluated in the selected cache
+                    (SessionStore.np_hyp): CREATE TABLE column names pairwise distinct; INSERT / UPDATE
+                    literals are Go values (int64, strings < 4 GiB: the model's Z / string are unbounded);
+                    CREATE TABLE / INSERT leave the file below 2^63 bytes. NOTHING is assumed for DELETE,
+                    SELECT, CREATE DATABASE, USE, SHOW DATABASES, nor about table / column names, column
+                    lists (unknown, duplicated, too many, too few), value types, SET from a column,
+                    unevaluable or ill-typed WHERE, catalog tables as targets, or no database selected.
+   SSelect: the session model answers OErr EOther for SELECT (its executor is modelled separately in
+   Model/Select.v; its panic-freedom is C18_select_no_panic above), so the SELECT case here is trivial.
+
+   C18_statement_full_statement drops stmt_bounded. Not proved: between the rows of a multi-row
+   statement / the columns of a CREATE TABLE the proof carries `Rep`, whose preservation
+   (RefineDML.st_insert_rep / st_update_rep, RefineFail.schema_row_step_rep) needs exactly these
+   hypotheses; a weaker "catalog well-formed" invariant preserved unconditionally would remove them. *)
+From Mkdb Require Import Model.Engine Model.Session Proofs.RefineRep Proofs.RefineCat Proofs.RefineMain
+  Proofs.SessionStore Proofs.SessionProofs.
+
+(* one statement on one represented store *)
+Theorem C18_store_no_panic_partial : forall s d st,
+  Rep s d -> np_hyp s st = true -> e_out (run_stmt s st) <> OPanic.
+Proof. exact run_stmt_no_panic. Qed.
+Print Assumptions C18_store_no_panic_partial.
+
+(* any statement in any reachable session state *)
+Theorem C18_statement_no_panic_partial : forall s st,
+  reachable s -> stmt_bounded s st = true -> snd (sess_stmt s st) <> SOPanic.
+Proof. exact statement_no_panic. Qed.
+Print Assumptions C18_statement_no_panic_partial.
+
+(* the classes that need no hypothesis on the statement at all *)
+Theorem C18_statement_no_panic_unconditional : forall s st,
+  reachable s ->
+  match st with SCreateTable _ _ | SInsert _ _ _ | SUpdate _ _ _ => False | _ => True end ->
+  snd (sess_stmt s st) <> SOPanic.
+Proof.
+  intros s st Hr Hc. apply statement_no_panic; [exact Hr|].
+  unfold stmt_bounded. destruct st; try contradiction; try reflexivity;
+    cbn [is_session_stmt orb]; destruct (cur s) as [c|]; try reflexivity; destruct (get_db c (dbs s)); reflexivity.
+Qed.
+Print Assumptions C18_statement_no_panic_unconditional.
+
+Definition C18_statement_full_statement : Prop :=
+  forall s st, reachable s -> snd (sess_stmt s st) <> SOPanic.
+
+(* no database selected: every non-session statement is refused, nothing changes *)
+Theorem C18_no_database_selected : forall s st,
+  cur s = None -> is_session_stmt st = false -> sess_stmt s st = (s, SOErr SENoDB).
+Proof. exact no_database_selected. Qed.
+Print Assumptions C18_no_database_selected.
+
+(* after a failed USE (or CREATE DATABASE) the session is exactly as before: in particular a failed
+   USE with nothing selected leaves nothing selected, and the next statement gets SENoDB, not a nil
+   dereference (finding F12, fixed) *)
+Theorem C18_failed_use_changes_nothing : forall s name s' e,
+  sess_stmt s (SUse name) = (s', SOErr e) -> s' = s.
+Proof. exact use_err. Qed.
+Print Assumptions C18_failed_use_changes_nothing.
+
+(* the invariant matters: with a selected database that does not exist (the state the pre-fix code
+   reached after a failed USE) the model panics *)
+Example C18_selected_missing_panics :
+  snd (sess_stmt (mkSess [] (Some "d")) (SDelete "t" None)) = SOPanic.
+Proof. reflexivity. Qed.
+
+(* non-vacuity: type-confused / malformed statements in a reachable state with data satisfy
+   stmt_bounded and yield a result or an error value *)
+Definition c18_evs : list sevent :=
+  [SvStmt (SCreateDatabase "d"); SvStmt (SUse "d");
+   SvStmt (SCreateTable "t" [mkColDef "a" STNumeric; mkColDef "b" (STVarchar 8); mkColDef "c" STBoolean]);
+   SvStmt (SInsert "t" [] [[VInt 1; VStr "x"; VBool true]; [VNull; VNull; VNull]])].
+
+Definition c18_stmts : list stmt :=
+  [SInsert "t" [] [[VStr "x"; VInt 1; VNull]];                               (* wrong types *)
+   SInsert "t" ["a"; "a"; "zz"] [[VInt 1; VInt 2; VInt 3]];                  (* duplicated / unknown columns: accepted *)
+   SInsert "t" ["a"] [[VInt 1; VInt 2]];                                     (* column count *)
+   SInsert "sys_pages" [] [[VStr "t"; VInt 0]];                              (* catalog table *)
+   SUpdate "t" [("b", XCol (mkCol "" "a"))] None;                            (* SET from a column *)
+   SUpdate "t" [("c", XLit (VInt 7))] None;                                  (* wrong type *)
+   SUpdate "t" [("a", XLit (VInt 5))] (Some (EPred (XCol (mkCol "" "b")) CLt (XLit (VInt 3))));   (* ill-typed WHERE *)
+   SDelete "t" (Some (EPred (XCol (mkCol "" "nosuch")) CEq (XLit VNull)));   (* unknown column *)
+   SDelete "t" (Some (EOr (EVal (XLit (VInt 1))) (EVal (XLit (VStr "s")))));  (* non-boolean WHERE *)
+   SDelete "sys_schema" (Some (EPred (XCol (mkCol "" "field_type")) CGt (XLit (VBool true))));
+   SDelete "nosuch" None;
+   SCreateTable "t" [mkColDef "z" STNumeric];                                (* exists *)
+   SUse "nosuch"; SCreateDatabase ""; SCreateDatabase "D"].
+
+Example C18_statement_nonvacuous :
+  sess_hyps init_sess c18_evs = true /\
+  match sess_run init_sess c18_evs with
+  | (Ok s, _) =>
+      forallb (stmt_bounded s) c18_stmts = true /\
+      map (fun st => snd (sess_stmt s st)) c18_stmts =
+        [SOErr (SEStmt ETypeMismatch); SOOk; SOErr (SEStmt EColCount); SOErr (SEStmt EOther);
+         SOErr (SEStmt ETmpUnsupported); SOErr (SEStmt ETypeMismatch); SOErr (SEStmt EIncompat);
+         SOErr (SEStmt EFieldNotFound); SOErr (SEStmt EIncompat); SOErr (SEStmt EIncompat);
+         SOErr (SEStmt ETableNotExist); SOErr (SEStmt ETableExists);
+         SOErr SEDBNotExist; SOErr (SEStmt EOther); SOErr SEDBExists]
+  | _ => False
+  end.
+Proof. vm_compute. repeat split; reflexivity. Qed.
